@@ -238,6 +238,7 @@ func c09Run(c *mon.Ctx, unit int) {
 	if unit == 0 {
 		c09Blowup(c)
 		c09TwoTypeWitness(c)
+		c09Chains(c)
 	}
 	switch {
 	case unit < e2:
@@ -370,6 +371,48 @@ func c09Reachable(s *model.Schema) *model.Schema {
 }
 
 const c09ChainClass = " (each schema receives only the types it names)"
+
+// c09Chains: reference chains three to seven types long (every link a required property, an
+// array item or a union member; the last type a leaf, a missing name, or the first type again),
+// judged in every registration mode - in particular with each type given only to the type that
+// names it, so that the root reaches the end of the chain through every link.
+func c09Chains(c *mon.Ctx) {
+	for L := 3; L <= 7; L++ {
+		for end := 0; end < 3; end++ {
+			for form := 0; form < 3; form++ {
+				s := &model.Schema{}
+				for i := 0; i < L; i++ {
+					next := fmt.Sprintf("@t%d", i+1)
+					if i == L-1 {
+						switch end {
+						case 0:
+							s.Types = append(s.Types, &model.TypeDef{Name: fmt.Sprintf("@t%d", i), Root: model.Int("1")})
+							continue
+						case 1:
+							next = "@zz"
+						default:
+							next = "@t0"
+						}
+					}
+					var body *model.Node
+					switch (form + i) % 3 {
+					case 0:
+						body = model.Obj(model.P("p", model.Ref(next)))
+					case 1:
+						body = model.Obj(model.P("p", model.Arr(model.Ref(next))), model.P("n", model.Int("1")))
+					default:
+						body = model.Obj(model.P("p", c09Union(i, next, "@k")))
+					}
+					s.Types = append(s.Types, &model.TypeDef{Name: fmt.Sprintf("@t%d", i), Root: body})
+				}
+				s.Types = append(s.Types, &model.TypeDef{Name: "@k", Root: model.Str("kk").With(model.RStr("regex", "^k"))})
+				s.Root = mon.Pick(c.Rng(uint64(L*9+end*3+form)), []*model.Node{model.Ref("@t0"), model.Obj(model.P("r", model.Ref("@t0"))), model.Arr(model.Ref("@t0"))})
+				c.DistinctByConstruction(1)
+				c09Judge(c, s, fmt.Sprintf("chain of %d types", L), false)
+			}
+		}
+	}
+}
 
 func c09Judge(c *mon.Ctx, s *model.Schema, class string, sample bool) {
 	c09JudgeCfg(c, s, class, sample, false, false)
